@@ -129,7 +129,9 @@ class Explorer:
             self.bound_hit = True
             raise BoundHit(f"more than {self.max_decisions} decisions on one path")
         free = False
-        if self._policy == "generic":
+        k_ = cond.decl().kind()
+        is_zero_test = k_ in (z3.Z3_OP_EQ, z3.Z3_OP_DISTINCT) or (k_ == z3.Z3_OP_NOT and cond.children()[0].decl().kind() == z3.Z3_OP_EQ)
+        if self._policy == "generic" and is_zero_test:
             # weight-vs-zero sites: follow the generic point (DESIGN §1 'Decision policies')
             d = self._generic(cond, wv)
         elif i < len(self.prefix):
